@@ -64,6 +64,11 @@ pub struct VerdictCase {
     /// open_stream calls really overlap (which id belongs to which call is read from the destinations)
     #[serde(default)]
     pub overlap: Option<(usize, Vec<u8>)>,
+    /// Some(ms): the link to the server stalls this many ms after the calls were made (nothing is read
+    /// any more, no reset) while an upload on another stream of the session is under way - the uploader
+    /// sits in its write holding the session's write path. Answers still arrive. (Only without a death.)
+    #[serde(default)]
+    pub stall_upload: Option<u16>,
 }
 
 pub struct VerdictFam;
@@ -143,8 +148,12 @@ impl Family for VerdictFam {
             0.3,
             (prop_oneof![Just(16usize), Just(64), Just(1usize << 20)], proptest::collection::vec(prop_oneof![3 => Just(0u8), 2 => Just(1u8), 1 => Just(2u8), 1 => Just(3u8)], 0..40)),
         );
-        (proptest::collection::vec(plan, 1..=6), death, 0u8..3, prop_oneof![Just(9u8), Just(1), Just(255)], overlap)
-            .prop_map(|(calls, death, server_v, host_len, overlap)| VerdictCase { calls, death, server_v, host_len, overlap })
+        let stall = proptest::option::weighted(0.15, prop_oneof![Just(100u16), Just(5000), Just(29_000)]);
+        (proptest::collection::vec(plan, 1..=6), death, 0u8..3, prop_oneof![Just(9u8), Just(1), Just(255)], overlap, stall)
+            .prop_map(|(calls, death, server_v, host_len, overlap, stall)| {
+                let stall_upload = if death.is_none() && overlap.is_none() { stall } else { None };
+                VerdictCase { calls, death, server_v, host_len, overlap, stall_upload }
+            })
             .boxed()
     }
     fn run(&self, case: &VerdictCase, _cx: &CaseCtx) -> CaseResult {
@@ -161,7 +170,8 @@ impl Family for VerdictFam {
             if let Some((_, yields)) = &overlap {
                 install_schedule(yields.clone());
             }
-            let mut l = link(PipeParams { capacity: overlap.as_ref().map(|o| o.0).unwrap_or(1 << 22), ..Default::default() }, PipeParams::default());
+            let stall_upload = if case.death.is_none() && overlap.is_none() { case.stall_upload } else { None };
+            let mut l = link(PipeParams { capacity: overlap.as_ref().map(|o| o.0).unwrap_or(if stall_upload.is_some() { 1 << 16 } else { 1 << 22 }), ..Default::default() }, PipeParams::default());
             let sess = client_session(&mut l, default_padding(), None);
             sess.set_seq(pool.next_seq());
             within(WATCHDOG, sess.clone().start_client()).await;
@@ -295,6 +305,21 @@ impl Family for VerdictFam {
                     }
                 }
             }
+            if let Some(ms) = stall_upload {
+                // another stream of the session, uploading; the link stalls under it
+                let c2s_h = l.c2s.clone();
+                let s2 = sess.clone();
+                tokio::spawn(async move {
+                    let Ok((st, _rx)) = s2.open_stream().await else { return };
+                    tokio::time::sleep_until(t0 + Duration::from_millis(ms as u64)).await;
+                    c2s_h.freeze_reader(true);
+                    for _ in 0..64 {
+                        if s2.write_data_frame(st.id(), bytes::Bytes::from(vec![0x77u8; 32 * 1024])).await.is_err() {
+                            break;
+                        }
+                    }
+                });
+            }
             let death_ms = case.death.as_ref().map(|d| d.0);
             // play the timeline
             timeline.sort_by_key(|(t, o, _)| (*t, *o));
@@ -405,6 +430,7 @@ impl Family for VerdictFam {
         out.class_if(dup, "duplicate-or-stray");
         out.class_if(case.calls.len() >= 2, "racing>=2");
         out.class_if(case.calls.len() >= 2 && case.overlap.is_some(), "overlapping-open_stream");
+        out.class_if(case.stall_upload.is_some() && case.death.is_none() && case.overlap.is_none(), "link-stalled-under-an-upload");
         out.class_if(death_during, "death-during-wait");
         out.class_if(case.calls.iter().any(|p| p.answers.is_empty()), "no-answer");
         Ok(out)
